@@ -110,7 +110,7 @@ def sym_env(blocks=(), rom_uf=False):
                         rom.data = _wrap_rom_function(rom, rom_uf)
                     else:
                         rom.data = _RomData(rom, rom_uf)
-        with sym.stubs(_simmod, bin=sym.sym_bin, len=sym.sym_len, int=sym.sym_int,
+        with sym.stubs(_simmod, bin=sym.sym_bin, len=sym.sym_len, int=sym.sym_int, dict=_sym_dict,
                        compile=_fast_compile), \
                 sym.stubs(_memmod, str=_safe_str), sym.stubs(_hf, str=_safe_str):
             yield
@@ -124,6 +124,19 @@ def sym_env(blocks=(), rom_uf=False):
 
 def _safe_str(x=''):
     return builtins.str(x)
+
+
+class _DictMeta(type):
+    def __instancecheck__(cls, inst):
+        return isinstance(inst, builtins.dict)
+
+
+class _sym_dict(builtins.dict, metaclass=_DictMeta):
+    """stands in for `dict` inside pyrtl.simulation: dict(<symbolic memory>) is a snapshot copy of it, as dict(d) is of a dict"""
+    def __new__(cls, *a, **k):
+        if a and isinstance(a[0], SymMem):
+            return a[0].copy()
+        return builtins.dict(*a, **k)
 
 
 # ------------------------------------------------------------------------------------------
